@@ -287,6 +287,9 @@ pub fn case_info(bytes: &[u8]) -> Result<CaseInfo, (Failure, serde_json::Value)>
     if stats.comments_in_expr > 0 {
         classes.push("comment_in_expr");
     }
+    if stats.comments_with_lone_cr > 0 {
+        classes.push("comment_with_lone_cr");
+    }
     if stats.nonraw_escapes > 0 {
         classes.push("nonraw_escape");
     }
